@@ -9,6 +9,8 @@ CONSTANTS
   Kinds = {"stream"}
   MaxEnv = 4
   MaxFaults = 1
+  MaxResign = 0
+  ResignMods = {}
 INVARIANT TypeOK
 INVARIANT GenuineAccepted
 INVARIANT AlteredRefused
